@@ -39,11 +39,14 @@ def window_summary(chk, fi, c):
         if isinstance(n, ast.Call) and ast.unparse(n.func) in ("np.where", "numpy.where") and len(n.args) == 3 and \
                 isinstance(n.args[2], ast.Name):
             wvar = n.args[2].id
+    penv = straightline_env(fi.node.body, Normaliser(), exclude=set(fi.params))     # locals that merely rename a parameter are inlined
     for n in ast.walk(fi.node):
         if isinstance(n, ast.Assign) and len(n.targets) == 1 and isinstance(n.targets[0], ast.Name):
-            p = Normaliser().poly(n.value)
-            if p.is_monomial() and any(a.startswith(("np.log10(", "numpy.log10(")) for a in p.atoms()) and arg is None:
-                arg, arg_name, arg_node = p, n.targets[0].id, n
+            p0 = Normaliser().poly(n.value)
+            if p0.is_monomial() and any(a.startswith(("np.log10(", "numpy.log10(")) for a in p0.atoms()) and arg is None:
+                sub = Normaliser()
+                sub.env = {k: v for k, v in penv.env.items() if k != n.targets[0].id and len(v.atoms()) == 1 and v == Poly.atom(list(v.atoms())[0])}
+                arg, arg_name, arg_node = sub.poly(n.value), n.targets[0].id, n
     norm = straightline_env(fi.node.body, Normaliser(), exclude={arg_name} | set(fi.params))
     for n in ast.walk(fi.node):
         if isinstance(n, ast.Assign) and len(n.targets) == 1 and isinstance(n.targets[0], ast.Name):
